@@ -11,7 +11,7 @@ RULE = ("all well-formed note sets over the tick lattice (pairs over the full la
 SCALE = ('16-120 notes (long) and the ladder 33..1025 notes at ticks up to ~38000 with step lists of common period 5040 / 143 / 240 / 48 / 4, dozens of collapsing notes beside surviving long ones, an event on the last tick')
 ASSUMPTIONS = ["input sequences are well-formed (property precondition)",
                "tie-breaking between equidistant grid points and the choice of surviving note are not demanded"]
-REQUIRED_FLAGS = ["step_list_object_reused", "after_history", "same_pitch_two_channels", "note_dropped", "event_moved", "isolated_note_checked",
+REQUIRED_FLAGS = ["built_through_the_relative_representation", "step_list_object_reused", "after_history", "same_pitch_two_channels", "note_dropped", "event_moved", "isolated_note_checked",
                   "collapse_candidate", "non_note_event"]
 
 STEP_LISTS = [[4], [6], [8], [4, 6], [6, 4], [3, 4], [8, 12]]
@@ -149,6 +149,13 @@ def gen_cases(unit, ctx):
                 for e1 in evs:
                     ev1 = [e1[0], t1] + e1[1:]
                     yield {"steps": steps, "notes": _mk(ns), "events": [ev1]}
+                    if e1[0] in ("ts", "ks"):
+                        # the same signature stated again later (a 4/4 marker at the start of every bar): still an event
+                        # that has to be kept; built through either representation
+                        for t2 in ticks:
+                            if t2 > t1:
+                                for b in ("abs", "rel"):
+                                    yield {"steps": steps, "notes": _mk(ns), "events": [ev1, [e1[0], t2] + e1[1:]], "build": b}
                     if e1[0] in ("ts", "cc"):
                         for t2 in ticks:
                             yield {"steps": steps, "notes": _mk(ns), "events": [ev1, ["ks", t2, "G"] if e1[0] == "ts" else ["pc", t2, 7]]}
@@ -230,7 +237,9 @@ def check_case(case, ctx):
             return R
     else:
         notes, events = case["notes"], case["events"]
-        s = lib.seq_abs(notes, events)
+        s = lib.seq_rel(notes, events) if case.get("build") == "rel" else lib.seq_abs(notes, events)
+        if case.get("build") == "rel":
+            R.flags.append("built_through_the_relative_representation")
     in_ev, _, _ = lib.view_abs(s)
     try:
         s.quantise(steps_obj if "hist" in case else list(steps))
